@@ -80,55 +80,123 @@ func checkC01(c *Ctx, r *Report) {
 			}
 		})
 	}
-	// bytes arrive by rename from CreateTemp
+	// bytes arrive by rename from CreateTemp. The steps may sit in Cache itself or in helpers it hands the work to
+	// (writeTemp: create + copy, install: rename + insert): each step is taken with the chain of calls it is reached
+	// through, values are followed through parameters and results, and orderings are compared in the body two steps share.
 	for _, f := range c.FuncsNamed("(*" + cachePkg + ".FileCache).Cache") {
-		ren := findCall(f, "os.Rename")
-		tmp := findCall(f, "os.CreateTemp")
-		cp := findCall(f, "io.Copy")
+		type step struct {
+			call *ssa.Call
+			ctx  dctx
+			fn   *ssa.Function
+		}
+		var ren, tmp, cp *step
 		var upd *ssa.MapUpdate
-		eachInstr(f, func(in ssa.Instruction) {
-			if u, ok := in.(*ssa.MapUpdate); ok {
-				if _, tracked := trackedMapField(u.Map); tracked {
-					upd = u
-				}
+		var updCtx dctx
+		hcs := helperContexts(f, 2)
+		for _, hc := range hcs {
+			hc := hc
+			if x := findCall(hc.fn, "os.Rename"); x != nil && ren == nil {
+				ren = &step{x, hc.ctx, hc.fn}
 			}
-		})
+			if x := findCall(hc.fn, "os.CreateTemp"); x != nil && tmp == nil {
+				tmp = &step{x, hc.ctx, hc.fn}
+			}
+			if x := findCall(hc.fn, "io.Copy"); x != nil && cp == nil {
+				cp = &step{x, hc.ctx, hc.fn}
+			}
+			eachInstr(hc.fn, func(in ssa.Instruction) {
+				if u, ok := in.(*ssa.MapUpdate); ok && upd == nil {
+					if _, tracked := trackedMapField(u.Map); tracked {
+						upd, updCtx = u, hc.ctx
+					}
+				}
+			})
+		}
 		if ren == nil || tmp == nil || cp == nil || upd == nil {
 			r.Fail("C01.R1", "FileCache.Cache: publish by rename", c.Pos(f.Pos()), fmt.Sprintf("missing step: CreateTemp=%v io.Copy=%v Rename=%v map insert=%v", tmp != nil, cp != nil, ren != nil, upd != nil))
 			continue
 		}
-		fromTmp := derivesFrom(ren.Call.Args[0], func(v ssa.Value) bool { return v == ssa.Value(tmp) })
-		toPub := atomStr(ren.Call.Args[1]) == published
-		cpErr := extractOf(cp, 1)
-		cpDst := derivesFrom(cp.Call.Args[0], func(v ssa.Value) bool { return v == ssa.Value(tmp) })
-		cpSrc := unconv(cp.Call.Args[1]) == ssa.Value(paramNamed(f, "data"))
-		okOrder := cpErr != nil && onlyWhenNil(f, ren, cpErr, true) && instrDominates(ren, upd)
-		sameDir := strings.HasPrefix(atomStr(tmp.Call.Args[0]), "$c.rootDir.Path")
-		r.Check(fromTmp && toPub && cpDst && cpSrc && okOrder && sameDir, "C01.R1", "FileCache.Cache: publish by rename", c.InstrPos(ren),
+		isTmp := func(v ssa.Value, _ dctx) bool { return v == ssa.Value(tmp.call) }
+		fromTmp := derivesFromDeep(ren.call.Call.Args[0], ren.ctx, isTmp)
+		toPub := ctxAtom(ren.call.Call.Args[1], ren.ctx) == published
+		cpErr := extractOf(cp.call, 1)
+		cpDst := derivesFromDeep(cp.call.Call.Args[0], cp.ctx, isTmp)
+		srcRoot, srcPath := ctxFieldPath(unconv(cp.call.Call.Args[1]), cp.ctx)
+		cpSrc := len(srcPath) == 0 && srcRoot == ssa.Value(paramNamed(f, "data"))
+		renL, updL := liftPair(ren.call, ren.ctx, upd, updCtx)
+		okOrder := cpErr != nil && successGatedCtx(li, f, cpErr, cp.ctx, ren.call, ren.ctx) && (renL == updL || instrDominates(renL, updL))
+		if renL == updL {
+			// both in one helper entered by the same call: compare inside it
+			okOrder = okOrder && instrDominates(ren.call, upd)
+		}
+		sameDir := strings.HasPrefix(ctxAtom(tmp.call.Call.Args[0], tmp.ctx), "$c.rootDir.Path")
+		r.Check(fromTmp && toPub && cpDst && cpSrc && okOrder && sameDir, "C01.R1", "FileCache.Cache: publish by rename", c.InstrPos(ren.call),
 			"CreateTemp(rootDir) ← io.Copy(data) ok → Rename(tmp, published) → map insert", fmt.Sprintf("the body does not reach the published path by 'copy into temp file in the cache dir, then rename' (fromTmp=%v toPublished=%v copyIntoTmp=%v copyFromData=%v renameAfterSuccessfulCopyBeforeInsert=%v tempInCacheDir=%v)", fromTmp, toPub, cpDst, cpSrc, okOrder, sameDir))
-		mr, mu := li.HeldMustX(ren), li.HeldMustX(upd)
-		r.Check(mr["S"] && mu["S"], "C01.R1", "FileCache.Cache: rename and map insert under the key lock", c.InstrPos(ren), "exclusive S held at both", "rename / map insert happen outside the key's exclusive shard lock: a concurrent Get can pair old metadata with the new file")
-		// R3: insert only after successful copy; Size is the copy's count
-		okPub := cpErr != nil && onlyWhenNil(f, upd, cpErr, true)
-		r.Check(okPub, "C01.R3", "file backend: publish only after a complete copy", c.InstrPos(upd), "map insert dominated by io.Copy err == nil", "the entry is inserted although the copy from the origin failed: a truncated body is published")
-		checkSizeIsCount(c, r, f, cp, "C01.R3", "file backend")
-		// R4: error exits
-		var bad []string
-		eachInstr(f, func(in ssa.Instruction) {
-			call, ok := in.(*ssa.Call)
-			if !ok {
-				return
-			}
-			n := calleeName(call)
-			if n == "os.Remove" || n == "os.RemoveAll" {
-				if atomStr(call.Call.Args[0]) == published || !derivesFrom(call.Call.Args[0], func(v ssa.Value) bool { return v == ssa.Value(tmp) }) {
-					bad = append(bad, n+"("+atomStr(call.Call.Args[0])+") at "+c.InstrPos(call))
+		heldAt := func(in ssa.Instruction, ctx dctx) lset {
+			h := li.HeldMustX(in).clone()
+			for _, cs := range ctx {
+				for k := range li.HeldMustX(cs) {
+					h[k] = true
 				}
 			}
-			if b, isB := call.Call.Value.(*ssa.Builtin); isB && b.Name() == "delete" {
-				bad = append(bad, "map delete at "+c.InstrPos(call))
+			return h
+		}
+		mr, mu := heldAt(ren.call, ren.ctx), heldAt(upd, updCtx)
+		r.Check(mr["S"] && mu["S"], "C01.R1", "FileCache.Cache: rename and map insert under the key lock", c.InstrPos(ren.call), "exclusive S held at both", "rename / map insert happen outside the key's exclusive shard lock: a concurrent Get can pair old metadata with the new file")
+		// the handle handed back with the new entry's metadata is opened in the same critical section that published the
+		// body: opened after the key lock is gone, it can be the body a concurrent store has renamed into place since,
+		// paired with this store's size, validators and headers
+		for _, hc := range hcs {
+			for _, op := range findCalls(hc.fn, "os.Open") {
+				if ctxAtom(op.Call.Args[0], hc.ctx) != published {
+					continue
+				}
+				mo := heldAt(op, hc.ctx)
+				r.Check(mo["S"], "C01.R1", "FileCache.Cache: the stored entry's file is opened under the key lock that published it", c.InstrPos(op), "exclusive S held", "Cache opens the published file for the entry it returns after the key's shard lock is released (must-hold="+mo.String()+"): a concurrent store of the same key can rename another body into place in between, and the caller receives that body with this store's metadata")
 			}
-		})
+		}
+		// R3: insert only after successful copy; Size is the copy's count
+		okPub := cpErr != nil && successGatedCtx(li, f, cpErr, cp.ctx, upd, updCtx)
+		r.Check(okPub, "C01.R3", "file backend: publish only after a complete copy", c.InstrPos(upd), "map insert dominated by io.Copy err == nil", "the entry is inserted although the copy from the origin failed: a truncated body is published")
+		checkSizeIsCount(c, r, f, cp.call, "C01.R3", "file backend")
+		// R4: error exits
+		var bad []string
+		for _, hc := range hcs {
+			for _, g := range append([]*ssa.Function{hc.fn}, closuresOf(hc.fn)...) {
+				eachInstr(g, func(in ssa.Instruction) {
+					call, ok := in.(*ssa.Call)
+					if !ok {
+						return
+					}
+					n := calleeName(call)
+					if n == "os.Remove" || n == "os.RemoveAll" {
+						if ctxAtom(call.Call.Args[0], hc.ctx) == published || !derivesFromDeep(call.Call.Args[0], hc.ctx, isTmp) {
+							bad = append(bad, n+"("+atomStr(call.Call.Args[0])+") at "+c.InstrPos(call))
+						}
+						// a deferred clean-up that names the file by a named result of the enclosing function removes what
+						// the return statement put there: `return "", 0, err` has cleared the name before the deferred
+						// function runs, nothing is removed and the temporary file stays in the cache directory
+						if ld, isLd := call.Call.Args[0].(*ssa.UnOp); isLd && ld.Op == token.MUL && g.Parent() != nil {
+							if fvar, isFV := ld.X.(*ssa.FreeVar); isFV {
+								if cell, isA := freeVarBinding(fvar).(*ssa.Alloc); isA && isNamedResult(g.Parent(), cell) {
+									for _, st := range storesTo(cell) {
+										if sl, self := st.Val.(*ssa.UnOp); self && sl.Op == token.MUL && sl.X == ssa.Value(cell) {
+											continue
+										}
+										if !derivesFromDeep(st.Val, hc.ctx, isTmp) {
+											bad = append(bad, n+"("+cell.Comment+") at "+c.InstrPos(call)+" names the file by a result variable that the return at "+c.InstrPos(st)+" overwrites before the deferred clean-up runs")
+										}
+									}
+								}
+							}
+						}
+					}
+					if b, isB := call.Call.Value.(*ssa.Builtin); isB && b.Name() == "delete" {
+						bad = append(bad, "map delete at "+c.InstrPos(call))
+					}
+				})
+			}
+		}
 		r.Check(len(bad) == 0, "C01.R4", "file backend: a failed store leaves the published entry alone", c.Pos(f.Pos()), "only the temp file is ever removed", "the store function removes something other than its temp file: "+strings.Join(bad, "; ")+" — a failed overwrite destroys the body that is still listed")
 	}
 	r.Floor("C01.R1", nOpen+1, 1, "write-opens in package cache")
@@ -421,6 +489,13 @@ func checkSizeIsCount(c *Ctx, r *Report, f *ssa.Function, copyCall *ssa.Call, ru
 		if e, isE := unconvNum(st.Val).(*ssa.Extract); isE && e.Tuple == ssa.Value(copyCall) && e.Index == 0 {
 			ok = true
 		}
+		// the count may come back from the helper that made the copy (tmpName, fileSize, err := c.writeTemp(...))
+		if !ok && copyCall.Parent() != f {
+			ok = derivesFromDeep(st.Val, nil, func(v ssa.Value, _ dctx) bool {
+				e, isE := v.(*ssa.Extract)
+				return isE && e.Tuple == ssa.Value(copyCall) && e.Index == 0
+			})
+		}
 	})
 	r.Check(ok, rule, which+": recorded Size is the number of bytes copied", c.InstrPos(copyCall), "Size = count returned by the copy", "the Size recorded with the entry is not the byte count of the copy that produced the body: Content-Length / range validation disagree with the stored bytes")
 }
@@ -686,23 +761,91 @@ func checkC11(c *Ctx, r *Report) {
 		{
 			var common lset
 			nOps := 0
+			// held at an operation inside a helper = held in the helper's body + held where the helper was entered (the
+			// same look-up helper may be entered once without the lock, for the fast path, and once with it)
+			heldAt := func(in ssa.Instruction, ctx dctx) lset {
+				h := li.HeldMust(in).clone()
+				for _, cs := range ctx {
+					for k := range li.HeldMust(cs) {
+						h[k] = true
+					}
+				}
+				for k := range h {
+					if strings.Contains(string(k), "syncmap.SyncMap") {
+						delete(h, k)
+					}
+				}
+				return h
+			}
+			type certOp struct {
+				in  *ssa.Call
+				ctx dctx
+			}
+			var gets, issues, dels []certOp
 			for _, hc := range hcs {
 				eachCall(hc.fn, func(call ssa.CallInstruction, nme string) {
-					if !(strings.HasSuffix(nme, "syncmap.SyncMap).Get") || strings.HasSuffix(nme, "syncmap.SyncMap).Set") || strings.HasSuffix(nme, "syncmap.SyncMap).GetOrSet") || strings.HasSuffix(nme, "PrivateCA).createCert")) {
+					cc, isC := call.(*ssa.Call)
+					if !isC {
 						return
 					}
-					nOps++
-					held := li.HeldMust(call.(ssa.Instruction))
-					if common == nil {
-						common = held.clone()
-					} else {
-						common = inter(common, held)
+					switch {
+					case strings.HasSuffix(nme, "syncmap.SyncMap).Get"):
+						gets = append(gets, certOp{cc, hc.ctx})
+					case strings.HasSuffix(nme, "syncmap.SyncMap).Set"), strings.HasSuffix(nme, "syncmap.SyncMap).GetOrSet"), strings.HasSuffix(nme, "PrivateCA).createCert"):
+						issues = append(issues, certOp{cc, hc.ctx})
+					case strings.HasSuffix(nme, "syncmap.SyncMap).Delete"):
+						dels = append(dels, certOp{cc, hc.ctx})
 					}
 				})
 			}
-			for k := range common {
-				if strings.Contains(string(k), "syncmap.SyncMap") {
-					delete(common, k)
+			// issuing and storing share a lock ...
+			for _, op := range issues {
+				nOps++
+				held := heldAt(op.in, op.ctx)
+				if common == nil {
+					common = held
+				} else {
+					common = inter(common, held)
+				}
+			}
+			// ... and under that lock the host is looked up again before anything is issued (a look-up made without the
+			// lock may hand back what it finds, but its "nothing there" is no reason to issue)
+			recheck := false
+			for _, gt := range gets {
+				held := heldAt(gt.in, gt.ctx)
+				covered := len(common) > 0
+				for k := range common {
+					if !held[k] {
+						covered = false
+					}
+				}
+				if !covered {
+					continue
+				}
+				before := len(issues) > 0
+				for _, op := range issues {
+					a, b := liftPair(gt.in, gt.ctx, op.in, op.ctx)
+					if a == b || !instrDominates(a, b) {
+						before = false
+					}
+				}
+				if before {
+					recheck = true
+					nOps++
+				}
+			}
+			if !recheck {
+				common = lset{}
+			}
+			// nothing is taken out of the map without that lock either, on any way the removal can be reached: a tunnel
+			// that found an expired certificate without the lock would otherwise delete the replacement another tunnel
+			// has stored in the meantime
+			for _, op := range dels {
+				held := heldAt(op.in, op.ctx)
+				for k := range common {
+					if !held[k] {
+						r.Fail("C11.R4", "a certificate is removed from the cache only under the issuance lock", c.InstrPos(op.in), fmt.Sprintf("the cached certificate is deleted without %s on a way through GetCertForHost (held: %s): a tunnel that saw the expired certificate on the unlocked fast path deletes the fresh one another tunnel has just stored, and the next tunnel is presented a third certificate", k, held))
+					}
 				}
 			}
 			r.Check(nOps >= 3 && len(common) > 0, "C11.R4", "lookup, issuance and store for a host are one critical section", c.Pos(f.Pos()), fmt.Sprintf("%d operations under %s", nOps, common), fmt.Sprintf("GetCertForHost looks the host up, issues and stores without a common lock (%d operations, common must-held set %s): 48 tunnels opened at once to a new host are presented up to 13 different certificates, all but the last discarded", nOps, common))
@@ -716,6 +859,21 @@ func checkC11(c *Ctx, r *Report) {
 					return
 				}
 				n := calleeName(call)
+				if n == "time.Until" {
+					// time.Until(cert.Leaf.NotAfter) < margin
+					if _, pth := fieldPath(callArgs(call)[0]); len(pth) > 0 && pth[len(pth)-1] == "NotAfter" {
+						if refs := call.Referrers(); refs != nil {
+							for _, ref := range *refs {
+								if bo, isB := ref.(*ssa.BinOp); isB && bo.X == ssa.Value(call) {
+									if k, isC := constInt(bo.Y); isC && k > 0 && (bo.Op == token.LSS || bo.Op == token.LEQ || bo.Op == token.GTR || bo.Op == token.GEQ) {
+										marginOK = true
+									}
+								}
+							}
+						}
+					}
+					return
+				}
 				if n != "(time.Time).Before" && n != "(time.Time).After" {
 					return
 				}
@@ -822,4 +980,18 @@ func onlyReadOnlyViews(v ssa.Value, depth int) bool {
 		}
 	}
 	return n > 0
+}
+
+// isNamedResult: cell is the variable of a named result of fn.
+func isNamedResult(fn *ssa.Function, cell *ssa.Alloc) bool {
+	if fn == nil || cell.Parent() != fn {
+		return false
+	}
+	res := fn.Signature.Results()
+	for i := 0; i < res.Len(); i++ {
+		if n := res.At(i).Name(); n != "" && n != "_" && n == cell.Comment {
+			return true
+		}
+	}
+	return false
 }
